@@ -116,6 +116,12 @@ func (t *DestinationTask) Do(ctx context.Context, batch *Batch) error {
 			break
 		}
 	}
+	if ackCount < len(positions) {
+		// The destination stopped short of acknowledging every written record
+		// (e.g. it kept returning empty ack batches). Returning nil here would
+		// let the unconfirmed records be acked to the source.
+		return cerrors.Errorf("received acks for %d of %d records written to destination", ackCount, len(positions))
+	}
 
 	return nil
 }
